@@ -7,7 +7,12 @@ os.environ.setdefault("JAX_PLATFORMS", "cpu")
 os.environ.setdefault("REX_VERIF", "1")
 os.environ.setdefault("OMP_NUM_THREADS", "1")
 os.environ.setdefault("OPENBLAS_NUM_THREADS", "1")
-os.environ.setdefault("XLA_FLAGS", "--xla_cpu_multi_thread_eigen=false intra_op_parallelism_threads=1")
+os.environ.setdefault("XLA_FLAGS", "--xla_cpu_multi_thread_eigen=false")
+if os.environ.get("REXMON_XLA_SAFE") == "1" and "xla_cpu_use_fusion_emitters" not in os.environ["XLA_FLAGS"]:
+    # The installed jaxlib's CPU fusion emitter crashes (LLVM IR verification: "Incorrect number of arguments passed to called
+    # function ... dynamic_slice", then SIGSEGV) on some compiled rollouts with trainable-delay windows. The orchestrator
+    # retries a crashed case with the fusion emitters off; this changes how XLA compiles, not what rex computes.
+    os.environ["XLA_FLAGS"] += " --xla_cpu_use_fusion_emitters=false"
 os.environ.setdefault("TF_CPP_MIN_LOG_LEVEL", "3")
 warnings.filterwarnings("ignore")
 
